@@ -187,12 +187,24 @@ def ob_aggregate(w, P):
     per = [w.int('res%d' % i, 0, 2 if name == '__len__' else 1000) for i in range(n)]
     part = [w.int('part%d' % i, 0, 1000) for i in range(n)]
     tmo = [w.bool('timeout%d' % i) for i in range(n)]
+    tmo2 = [w.bool('timeout_again%d' % i) for i in range(n)]
+    part2 = [w.int('part_again%d' % i, 0, 1000) for i in range(n)]
     fired = {}
+    decided = {}
 
     def timeouts(i, nm):
-        if P.get('with_timeouts') and i not in fired:
-            fired[i] = bool(tmo[i])
-            return fired[i]
+        """a shard may time out once -- or, with `twice`, a second time on the attempt that follows"""
+        if not P.get('with_timeouts'):
+            return False
+        k = decided.get(i, 0)
+        if k == 0 or (k == 1 and P.get('twice') and fired.get(i) == 1):
+            decided[i] = k + 1
+            t = bool((tmo, tmo2)[k][i])
+            if t:
+                fired[i] = k + 1
+                if k == 1:
+                    flag('timed_out_twice')
+            return t
         return False
 
     def results(kind, i, nm):
@@ -205,7 +217,9 @@ def ob_aggregate(w, P):
         if nm == 'transact':
             import contextlib
             return contextlib.nullcontext()
-        return part[i] if kind == 'partial' else per[i]
+        if kind == 'partial':
+            return part2[i] if fired.get(i) == 2 else part[i]
+        return per[i]
     fc, tw = mk_fanout(w, n, timeouts, results)
     meth = getattr(L.fanout.FanoutCache, 'reset' if name == 'reset_reload' else name)
     if P.get('busy'):
@@ -242,7 +256,7 @@ def ob_aggregate(w, P):
     if P.get('busy'):
         pass
     elif P.get('with_timeouts'):
-        cl.append(('C13,C14', 'a shard is called again only after it timed out', all(counts[i] == (2 if fired.get(i) else 1) for i in range(n))))
+        cl.append(('C13,C14', 'a shard is called again only after it timed out', all(counts[i] == 1 + fired.get(i, 0) for i in range(n))))
     else:
         cl.append(('C13', 'every shard is visited exactly once', all(counts[i] == 1 for i in range(n))))
     if name in ('expire', 'evict', 'cull', 'clear'):
@@ -251,6 +265,8 @@ def ob_aggregate(w, P):
             total = sx.AddR(total, zv(per[i]))
             if fired.get(i):
                 total = sx.AddR(total, zv(part[i]))
+            if fired.get(i) == 2:
+                total = sx.AddR(total, zv(part2[i]))
         cl.append(('C13,C14', 'bulk removals add up the per-shard counts (including what a timed-out attempt had already removed)', EqR(zv(ret), total)))
         for s in fc._shards:
             for cname, rec in s.calls:
@@ -437,6 +453,8 @@ def jobs(tier):
         out.append(dict(id='fanout.agg.%s' % m, func='ob_aggregate', params=dict(method=m), tags=['C13', 'C14', 'C04', 'C17'], functions=F, weight=2, twin=False))
     for m in ('expire', 'evict', 'cull', 'clear'):
         out.append(dict(id='fanout.agg.%s.timeouts' % m, func='ob_aggregate', params=dict(method=m, with_timeouts=True), tags=['C13', 'C14'], functions=F, weight=4, twin=False))
+        out.append(dict(id='fanout.agg.%s.timeouts_twice' % m, func='ob_aggregate', params=dict(method=m, with_timeouts=True, twice=True, shards=2), tags=['C13', 'C14'], functions=F, weight=4, twin=False,
+                        must_reach=['timed_out_twice']))
     for m in ('check', '__len__', 'volume', 'stats', '__iter__'):
         out.append(dict(id='fanout.agg.%s.busy' % m, func='ob_aggregate', params=dict(method=m, with_timeouts=True, busy=True), tags=['C13', 'C17', 'C14'], functions=F, weight=4, twin=False,
                         must_reach=['shard_timeout']))
